@@ -78,3 +78,28 @@ func verifC13_ProxyMemoryCache() {
 		}
 	}
 }
+
+// verifC13_PoolWithoutServers: a pool that names a service and lists no static servers passes
+// validation (ServerPoolSpec.Validate rejects only "neither"); without a registry, or before the
+// registry reports an instance, it has no server at all. Such a pool serves every request
+// without panicking: it answers with an error result.
+func verifC13_PoolWithoutServers() {
+	vSymbolicRequest = false
+	spec := &ServerPoolSpec{ServiceName: "orders"}
+	verifAssert(spec.Validate() == nil, "pool-naming-a-service-is-accepted")
+	p := &Proxy{spec: &Spec{}}
+	verifInitMaps(p)
+	sp := NewServerPool(p, spec, "pool")
+	fnSendRequest = vSend
+	vOutcome = func(attempt int) (*http.Response, error) {
+		return &http.Response{StatusCode: 200, Header: http.Header{}, Body: &vBody{}}, nil
+	}
+	n := 1 + verifChoose("requests", 2)
+	for i := 0; i < n; i++ {
+		ctx, _, _ := vClientRequest([]byte{1}, verifBool("req.stream"))
+		vNSends = 0
+		result := sp.handle(ctx, false)
+		verifAssert(result != "" && vNSends == 0, "request-to-a-pool-without-servers-is-refused-not-crashed")
+	}
+	verifCover("pool-without-servers")
+}
